@@ -34,6 +34,15 @@ package main
 //@   ensures [C20] reloaded: ret == nil ==> wh.verifier == verifiersFrom(wh.root, ite(wh.mirror, "mirror.v0.json", "witness.v0.json"))
 //@   ensures [C20] mirror-pending-keys: ret == nil && wh.mirror ==> wh.witnessVerifier == verifiersFrom(wh.pendingRoot, "witness.v0.json")
 
+// Which logs of a witness are looked at: every sub-directory whose name is an origin hash, whether or not anything is
+// in it yet (a missing checkpoint must show up as a failure of that log, not as silence).
+//@ pure func isOriginHashName(s string) bool
+//@ func skylight.isOriginHash props C20
+//@   defines ret == isOriginHashName(name)
+//@ func skylight.witnessHealth.hashes props C20
+//@   invariant "range entries" [C20] every-hash-named-directory-so-far-is-listed: rangeindex < len(entries) && (forall k int :: (0 <= k && k <= rangeindex && dirEntryIsDir(entries[k]) && isOriginHashName(dirEntryName(entries[k]))) ==> (exists j int :: 0 <= j && j < len(hashes) && hashes[j] == dirEntryName(entries[k])))
+//@   returns [C20] every-hash-named-directory-is-checked: ret1 == nil ==> (forall k int :: (0 <= k && k < len(entries) && dirEntryIsDir(entries[k]) && isOriginHashName(dirEntryName(entries[k]))) ==> (exists j int :: 0 <= j && j < len(ret0) && ret0[j] == dirEntryName(entries[k])))
+
 //@ func skylight.witnessHealth.check props C20
 //@   returns [C20] witness-verified: ret1 == nil ==> openedBy(n, signedCheckpoint, wh.verifier) && checkpoint == ckptOf(n.Text) && ret0 == checkpoint.Origin
 //@   returns [C20] under-own-hash: ret1 == nil ==> originHashOf(checkpoint.Origin) == hash
